@@ -38,8 +38,22 @@ C14 — type-aware partial evaluation and permission queries are sound.  Propert
     `env` is the unlinked request environment of the partial request; the completion is `Conformant` (C11 `ConformsRequest`,
     `StoreConforms`; C03 `ActionsPresent`) and `Completes` the partial inputs.  The older theorems are kept.
   * NOT proved: the passage `Residual → Expr` of the real `reauthorize` (a `Concrete` residual is re-parsed as
-    `Value → Expr`); that Rust's typed AST IS `annotate` (the C16 differential run diffs the level checker's verdict computed
-    from `annotate` against Rust; C14's run feeds the model Rust's own typed expression) — differential runs cover both.
+    `Value → Expr`) — covered by the differential run (tpe-re lines).
+  * `IsTypedFor` / `typedPolicy` ("the typed condition is the erasure of `annotate .strict s env cond []`") is a statement
+    about the Rust typechecker's output and cannot be proved here; it is CHECKED on every `./check C14` (and C16) by the
+    `typedast` correspondence stream `c14typed` (harness/src/c14_typed.rs; driver op Driver/Ops/TypedAst.lean): for generated
+    (schema, strictly valid / near-valid policy, request environment) triples
+      - `(typedast shape …)`: `(annotate …).erase` against `typecheck_by_single_request_env(…).into_expr()`, with the verdict
+        (`PolicyCheck::Success` / `Irrelevant` / `Fail` = success / irrelevant / `(err)`);
+      - `(typedast types …)`: the `Type` annotation of EVERY node (`expr.data()`) against `typeOf` under the capabilities in
+        force at that node; the decorated tree the op prints is checked at run time to be literally `annotate`'s `TExpr`
+        (incl. the `TKind`s the level checker reads), else the op answers `(model-mismatch)`.
+    Quick run: 2068 `c14typed` lines = 1034 (policy, environment) pairs (318 success, 674 irrelevant, 42 rejected; in 699 the
+    typed expression differs from the condition by a dropped operand / duplicated branch), plus the `typedast` lines the `c14`
+    stream emits for the policies and environment of every 4th TPE case (3446 lines: 1036 success, 687 irrelevant pairs): 0 disagreements, 0 `(outside-model)`, 0 `(model-mismatch)`.
+    Shapes outside the model (the op answers `(outside-model)`, never diffed): `unknown` expressions; entity literals whose
+    type / action id the schema does not declare; `AnyEntity`-typed operands of `.`/`has`/tags (partial-schema validation
+    only); templates (slots) are not sent by the stream (the theorems are about static policies).
 -/
 namespace Cedar.C14
 open Cedar Cedar.Tpe Cedar.Tpe.Valid
